@@ -43,7 +43,7 @@ import (
 
 type ICSCase struct {
 	Shape    string `json:"shape"`             // direct | via | child-reverts | tx-fails
-	Role     string `json:"role"`              // sender argument: origin | self (the calling contract)
+	Role     string `json:"role"`              // sender argument: origin | self (the calling contract) | third (a funded bystander)
 	Denom    string `json:"denom"`             // native | erc20
 	Amt      string `json:"amt"`               // decimal, or "balance+1"
 	Value    string `json:"value"`             // tx value (wei)
@@ -55,7 +55,7 @@ type ICSCase struct {
 
 func genICSCase(t *rapid.T) ICSCase {
 	c := ICSCase{Shape: rapid.SampledFrom([]string{"direct", "via", "via", "via", "child-reverts", "tx-fails"}).Draw(t, "shape")}
-	c.Role = rapid.SampledFrom([]string{"origin", "origin", "self"}).Draw(t, "role")
+	c.Role = rapid.SampledFrom([]string{"origin", "origin", "self", "third"}).Draw(t, "role")
 	c.Denom = rapid.SampledFrom([]string{"native", "native", "erc20"}).Draw(t, "denom")
 	c.Amt = rapid.SampledFrom([]string{"1", "1000", "1000000000000000000", "balance+1"}).Draw(t, "amt")
 	c.Value = rapid.SampledFrom([]string{"0", "0", "1", "1000000000000000000"}).Draw(t, "value")
@@ -140,6 +140,10 @@ func runICS(t *testing.T, c ICSCase, class func(string)) (discs []icsDisc, nontr
 		return h
 	}
 	senderHex := e.origin.Hex
+	third := chain.Acct("ics-third")
+	if c.Role == "third" {
+		senderHex = third.Hex
+	}
 	if c.Role == "self" {
 		senderHex = frame0
 		if c.Shape == "child-reverts" {
@@ -149,7 +153,7 @@ func runICS(t *testing.T, c ICSCase, class func(string)) (discs []icsDisc, nontr
 	// fund the contracts so that "self" transfers are possible
 	{
 		ctx := e.H.GetContext()
-		for _, f := range []common.Address{frame0, frame1} {
+		for _, f := range []common.Address{frame0, frame1, third.Hex} {
 			must(app.BankKeeper.SendCoins(ctx, e.origin.Addr, sdk.AccAddress(f.Bytes()), sdk.NewCoins(sdk.NewCoin(utils.BaseDenom, sdk.NewIntFromBigInt(bigOf("3000000000000000000"))))))
 			if c.Denom == "erc20" {
 				_, err := app.Erc20Keeper.CallEVM(ctx, erc20ABI(), e.origin.Hex, e.token, true, "transfer", f, big.NewInt(5_000_000))
@@ -260,7 +264,7 @@ func runICS(t *testing.T, c ICSCase, class func(string)) (discs []icsDisc, nontr
 	// ---- the Ethereum transaction ----
 	feeColl := sdk.AccAddress(common.HexToAddress("0x0").Bytes())
 	_ = feeColl
-	watch := map[string]common.Address{"origin": e.origin.Hex, "frame0": frame0, "frame1": frame1, "escrow": common.BytesToAddress(escrow.Bytes())}
+	watch := map[string]common.Address{"origin": e.origin.Hex, "frame0": frame0, "frame1": frame1, "third": third.Hex, "escrow": common.BytesToAddress(escrow.Bytes())}
 	before := map[string]*big.Int{}
 	beforeH := map[string]*big.Int{}
 	for k, a := range watch {
@@ -302,6 +306,12 @@ func runICS(t *testing.T, c ICSCase, class func(string)) (discs []icsDisc, nontr
 	if c.Role == "origin" && c.Shape != "direct" && (limit.Sign() == 0 || limit.Cmp(amt) < 0) {
 		mayTransfer = false // a contract moving origin's coins needs a live approval with a sufficient limit
 	}
+	if c.Role == "third" {
+		mayTransfer = false // neither the signer nor the calling contract: its funds may not move, grant or no grant
+		if d := new(big.Int).Sub(holdings(third.Hex), beforeH["third"]); d.Sign() != 0 {
+			add("C04", "ics20-third-party-funds-moved", desc+fmt.Sprintf(": holdings of the named bystander changed by %s", d))
+		}
+	}
 	if c.Shape == "child-reverts" || c.Shape == "tx-fails" || (c.Shape == "via" && !preOK) {
 		// ---- C05: nothing of the transfer may remain ----
 		c05key := "frame-revert-leak:ics20.transfer"
@@ -332,7 +342,7 @@ func runICS(t *testing.T, c ICSCase, class func(string)) (discs []icsDisc, nontr
 	if preOK && denom == utils.BaseDenom {
 		moved = amt
 	}
-	expected := map[string]*big.Int{"origin": new(big.Int).Neg(fee), "frame0": new(big.Int), "frame1": new(big.Int), "escrow": new(big.Int).Set(moved)}
+	expected := map[string]*big.Int{"origin": new(big.Int).Neg(fee), "frame0": new(big.Int), "frame1": new(big.Int), "third": new(big.Int), "escrow": new(big.Int).Set(moved)}
 	if !txFailed {
 		expected["origin"].Sub(expected["origin"], value)
 		expected["frame0"].Add(expected["frame0"], value)
@@ -342,10 +352,12 @@ func runICS(t *testing.T, c ICSCase, class func(string)) (discs []icsDisc, nontr
 		who = "frame0"
 	} else if senderHex == frame1 {
 		who = "frame1"
+	} else if senderHex == third.Hex {
+		who = "third"
 	}
 	expected[who].Sub(expected[who], moved)
 	ledgerKey := ""
-	for _, k := range []string{"origin", "frame0", "frame1", "escrow"} {
+	for _, k := range []string{"origin", "frame0", "frame1", "third", "escrow"} {
 		a := watch[k]
 		got := new(big.Int).Sub(balOf(sdk.AccAddress(a.Bytes()), utils.BaseDenom), before[k])
 		if got.Cmp(expected[k]) != 0 {
